@@ -77,6 +77,20 @@ def gen_c08(tier, rng):
         for t in (I64_MIN, I64_MAX, 0, -1, 1 << 62, -(1 << 62)):
             for f in ("%Y", "%s", "%E18S", "%E*S", "%E4Y", "%E15f", "%z|%:z|%::z|%:::z|%Ez|%E*z", "%Y-%m-%dT%H:%M:%E*S%Ez", "%c|%D|%G|%y"):
                 cases.append("fmt %s %s %d %d" % (zid, hx(f), t, rng.choice([0, 10 ** 15 - 1, 1])))
+    # ToTM's tm_year saturation: civil years around INT_MAX + 1900, INT_MAX, INT_MAX - 1900 and the
+    # negative counterparts, with every specifier strftime derives from tm_year
+    def t_of_year(y):
+        d = 365 * (y - 1970) + ((y - 1969) // 4) - ((y - 1901) // 100) + ((y - 1601) // 400)
+        return d * 86400
+    I32 = 2147483647
+    yrs = []
+    for c in (I32 + 1900, I32, I32 - 1900, -I32 - 1 + 1900, -I32 - 1, -I32 - 1 - 1900):
+        yrs += [c - 1901, c - 1900, c - 1899, c - 2, c - 1, c, c + 1, c + 2, c + 1899, c + 1900, c + 1901, c + rng.randint(-1900, 1900)]
+    zs = [fixed_ids()[-1], fixed_ids()[0]] + [z[0] for z in zones[:2]]
+    for y in yrs:
+        t = t_of_year(y) + rng.randint(0, 360 * 86400)
+        for f in ("%y|%C|%G|%g", "%c", "%D|%x", "%Y|%y|%j|%a|%U|%W|%V", "%C%y %F"):
+            cases.append("fmt %s %s %d %d" % (rng.choice(zs), hx(f), t, 0))
     # long runs for FormatTM's growing buffer
     for k in (1, 5, 17, 64):
         cases.append("fmt %s %s 0 0" % (fixed_ids()[-1], hx("%c" * k)))
